@@ -155,7 +155,7 @@ func calledIn(p *Prog, fn *ssa.Function) []*ssa.Function {
 func runC07(c *Ctx) {
 	r := c.R
 	r.Doc("E0", "role resolution (by effect): all-drained helper, all-zero helper, deferred wait-for-zero, scheduling loop function, drained marker", 2)
-	r.Doc("E1", "every normal return of the scheduling loop is dominated by all-inputs-drained == true (v1: with the graceful signal, or is a stop/cancel return); error returns carry a non-nil error", 5)
+	r.Doc("E1", "every normal return of the scheduling loop is dominated by all-inputs-drained == true (v1: with the graceful signal, or is a stop/cancel return); error returns carry a non-nil error; a normal return for the drained state exists", 7)
 	r.Doc("E2", "Drained=true only on the closed edge of a receive from the channel of the same key", 4)
 	r.Doc("E3", "for-all helpers return true only after the complete range loop, false only under the failed per-element test", 4)
 	r.Doc("E4", "wait-for-zero loop is an unconditional defer of the scheduling loop function; its only exits are all-zero (v1: or stop/cancel); it only consumes releases", 2)
@@ -287,7 +287,7 @@ func isNilConst(v ssa.Value) bool {
 func c07loopReturns(c *Ctx, sr *schedRoles) {
 	r, p := c.R, sr.p
 	fn := sr.loopFn
-	n := 0
+	n, normalExits := 0, 0
 	for _, b := range fn.Blocks {
 		if b.Comment == "recover" {
 			continue
@@ -349,11 +349,24 @@ func c07loopReturns(c *Ctx, sr *schedRoles) {
 		case stop:
 			r.Pass("E1", key, p.InstrPos(ret), "stop/cancel return (C16): "+desc)
 		case drained && (graceful || !hasGraceful):
+			normalExits++
 			r.Pass("E1", key, p.InstrPos(ret), "normal return under: "+desc)
 		default:
 			r.Fail("E1", key, p.InstrPos(ret), "the scheduling loop can return normally (and the discipline then signals termination) without having observed every input closed and empty; conditions on this return: "+desc)
 		}
 	}
+	// ... and such a return exists: the drained state (with the graceful request, where the discipline
+	// has one) is answered by a return that is not the stop/cancel one
+	r.Check(normalExits > 0, "E1", p.FnKey(fn)+"#drained-exit", p.Pos(fn.Pos()), "the scheduling loop has a normal return for the drained state", "no return of the scheduling loop answers the drained state (all inputs closed and empty"+map[bool]string{true: ", graceful stop requested", false: ""}[hasGracefulField(sr)]+"): the discipline never terminates on its own")
+}
+
+func hasGracefulField(sr *schedRoles) bool {
+	for _, f := range sr.d.Fields() {
+		if f.Name() == "graceful" {
+			return true
+		}
+	}
+	return false
 }
 
 // c07edgeFacts: what is known when edge e is taken: "drained" (the all-inputs-drained test answered
